@@ -221,9 +221,11 @@ def c_c05(case, out, ids, lens):
 
 def layout_of(case):
     """'C2,B,C3': the shape of the source list (C<n> = collection with n leaves, B = bare)"""
+    def has_sensor(t):
+        return any("sensor" in c or ("children" in c and has_sensor(c)) for c in t["children"])
     out = []
     for s in level2.resolve(case["sources"]):
-        out.append("C%d" % len(tree_leaves(s["tree"])) if "tree" in s else "B")
+        out.append("C%d%s" % (len(tree_leaves(s["tree"])), "+S" if has_sensor(s["tree"]) else "") if "tree" in s else "B")
     return ",".join(out)
 
 
